@@ -224,7 +224,7 @@ End Refine.
 Definition sound (solver_unsat : list bvform -> bool) : Prop :=
   forall fs, solver_unsat fs = true -> forall M, exists f, In f fs /\ form_eval M f = false.
 
-Definition M0 : interp := mkInterp (fun _ => 0) (fun _ => 0) (fun _ _ => 0) 1.
+Definition M0 : interp := mkInterp (fun _ => 0) (fun _ => 0) (fun _ _ => 0).
 
 Lemma find_block_unique : forall bs b, NoDup (offsets bs) -> In b bs -> find_block bs (ab_off b) = Some b.
 Proof.
